@@ -125,14 +125,22 @@ func WithToken() OptionFn {
 		p := h.dataDir
 		p = path.Join(p, "token")
 
-		if _, err := os.Stat(p); os.IsNotExist(err) {
-			ioutil.WriteFile(p, []byte(uid), 0600)
-		} else if err != nil /* other error */ {
+		if data, err := ioutil.ReadFile(p); err == nil {
+			// keep the stored token only if it is a complete identifier: a start-up that was
+			// killed while writing the file may have left it empty or truncated
+			if id, err := xid.FromString(string(data)); err == nil {
+				h.token = id.String()
+				return nil
+			}
+		} else if !os.IsNotExist(err) /* other error */ {
 			return err
-		} else if data, err := ioutil.ReadFile(p); err != nil {
-			return err
-		} else {
-			uid = string(data)
+		}
+
+		// write the new token to a temporary file and rename it, so that the token file is
+		// either absent or complete at any moment
+		tmp := p + ".tmp"
+		if err := ioutil.WriteFile(tmp, []byte(uid), 0600); err == nil {
+			os.Rename(tmp, p)
 		}
 
 		h.token = uid
